@@ -71,6 +71,8 @@ pub enum Mac {
     TailOrg,
     /// the argument is a name used as a name: the flag of an .ifdef (flags are case-sensitive)
     FlagArg,
+    /// a parameter directly followed by a digit: parameters are @0..@9, one digit; the digit behind is text
+    DigitAfter,
     /// parameters behind a `;` that is a character or part of a string, not a comment
     SemiLit,
     /// the whole body is one .org (the argument is made increasing by the renderer)
@@ -81,7 +83,7 @@ pub enum Mac {
     OnlySeg,
 }
 
-const MACS: [Mac; 24] = [Mac::Dw, Mac::Scale, Mac::Regs, Mac::Ldd, Mac::Ten, Mac::Outer, Mac::Mid, Mac::Cond, Mac::Dseg, Mac::Eseg, Mac::Org, Mac::OrgOuter, Mac::EmitOnce, Mac::Maybe, Mac::Probe, Mac::Setter, Mac::Optional, Mac::TailCseg, Mac::TailOrg, Mac::FlagArg, Mac::SemiLit, Mac::OnlyOrg, Mac::OnlySeg, Mac::OrgThenSeg];
+const MACS: [Mac; 25] = [Mac::Dw, Mac::Scale, Mac::Regs, Mac::Ldd, Mac::Ten, Mac::Outer, Mac::Mid, Mac::Cond, Mac::Dseg, Mac::Eseg, Mac::Org, Mac::OrgOuter, Mac::EmitOnce, Mac::Maybe, Mac::Probe, Mac::Setter, Mac::Optional, Mac::TailCseg, Mac::TailOrg, Mac::FlagArg, Mac::SemiLit, Mac::OnlyOrg, Mac::OnlySeg, Mac::OrgThenSeg, Mac::DigitAfter];
 
 enum BL {
     Text(&'static str),
@@ -111,6 +113,7 @@ impl Mac {
             Mac::TailCseg => "m_tailcseg",
             Mac::TailOrg => "m_tailorg",
             Mac::FlagArg => "m_flagarg",
+            Mac::DigitAfter => "m_digitafter",
             Mac::SemiLit => "m_semilit",
             Mac::OnlyOrg => "m_onlyorg",
             Mac::OrgThenSeg => "m_orgthenseg",
@@ -121,7 +124,7 @@ impl Mac {
         match self {
             Mac::Dw | Mac::Scale | Mac::Dseg | Mac::Eseg | Mac::Org | Mac::OrgOuter | Mac::Maybe | Mac::TailCseg | Mac::TailOrg | Mac::FlagArg | Mac::OnlyOrg | Mac::OrgThenSeg => 1,
             Mac::EmitOnce | Mac::Probe | Mac::Setter | Mac::OnlySeg => 0,
-            Mac::Ldd | Mac::Outer | Mac::Mid | Mac::Cond | Mac::Optional | Mac::SemiLit => 2,
+            Mac::Ldd | Mac::Outer | Mac::Mid | Mac::Cond | Mac::Optional | Mac::SemiLit | Mac::DigitAfter => 2,
             Mac::Regs => 3,
             Mac::Ten => 10,
         }
@@ -160,6 +163,7 @@ impl Mac {
             Mac::OnlyOrg => vec![BL::Text(".org @0")],
             Mac::OrgThenSeg => vec![BL::Text("ldi r24, 8"), BL::Text(".org @0"), BL::Text(".dseg"), BL::Text(".byte 1"), BL::Text(".cseg"), BL::Text("ldi r24, 9")],
             Mac::OnlySeg => vec![BL::Text(".dseg"), BL::Text(".cseg")],
+            Mac::DigitAfter => vec![BL::Text("ldi r2@0, @10 + @0"), BL::Text(".dw @00, @01, 1@1"), BL::Text("clr r@11")],
             Mac::FlagArg => vec![BL::Text(".ifdef @0"), BL::Text("ldi r28, 5"), BL::Text(".else"), BL::Text("ldi r28, 6"), BL::Text(".endif")],
             Mac::SemiLit => vec![BL::Text(".db ';', low(@1)"), BL::Text(".db \"k;\", low(@0)"), BL::Text("cpi r16, ';' ; a comment with @1"), BL::Text(".db \"\u{b0}C \u{e9}\", low(@0), \"\u{20ac}\", low(@1)")],
             Mac::TailCseg => vec![BL::Text(".eseg"), BL::Text(".db @0"), BL::Text(".cseg")],
@@ -356,6 +360,7 @@ impl MacModel {
         m.insert(Mac::OnlyOrg, vec![vec![e("0")]]);
         m.insert(Mac::OrgThenSeg, vec![vec![e("0")]]);
         m.insert(Mac::OnlySeg, vec![vec![]]);
+        m.insert(Mac::DigitAfter, vec![vec![raw("3"), raw("2")], vec![raw("0"), raw("1")], vec![raw("9"), raw("2")]]);
         m.insert(Mac::FlagArg, vec![vec![raw("FeatureX")], vec![raw("OtherFlag")], vec![raw("featurex")]]);
         m.insert(Mac::SemiLit, vec![vec![e("1"), e("2")], vec![e("0x10"), e("'a'")]]);
         m.insert(Mac::Org, vec![vec![e("0")]]);
